@@ -24,7 +24,7 @@ def u(n):
     return ast.unparse(n)
 
 
-COQ_TY = {"F": "Z", "VF": "list Z", "VBcol": "list bool", "Z": "Z", "B": "bool", "Pos": "(Z * Z)", "VB": "list bool", "MB": "list (list bool)", "VPos": "list (Z * Z)", "VZ": "list Z",
+COQ_TY = {"MQ": "(list (list Z) * Z)", "F": "Z", "VF": "list Z", "VBcol": "list bool", "Z": "Z", "B": "bool", "Pos": "(Z * Z)", "VB": "list bool", "MB": "list (list bool)", "VPos": "list (Z * Z)", "VZ": "list Z",
           "MZ": "list (list Z)", "PB": "(bool * bool)", "VPB": "list (bool * bool)", "Ext": "unit", "Key": "unit"}
 
 PRELUDE = r'''(* element-wise operations on small fixed-rank arrays: a (2,) integer array is a pair, an (N, N) integer array a list of rows *)
@@ -50,6 +50,7 @@ Definition scatter_const {A : Type} (base : list A) (idxs : list Z) (v : A) : li
 (* jnp.dot(mask, values) for a boolean mask and float values carried as exact dyadic integers (the sum is exact in the model) *)
 Fixpoint dot_bf (p : list bool) (v : list Z) : Z :=
   match p, v with pi :: p', vi :: v' => (if pi then vi else 0) + dot_bf p' v' | _, _ => 0 end.
+Definition m_max (a : list (list Z)) : Z := match concat a with [] => 0 | x :: t => fold_left Z.max t x end.    (* a.max() of a non-empty array *)
 Definition m_map {A B : Type} (f : A -> B) (a : list (list A)) : list (list B) := map (map f) a.
 Definition m_all (a : list (list bool)) : bool := forallb (forallb (fun b : bool => b)) a.
 Definition m_eqb (a b : list (list Z)) : bool := list_eqb (list_eqb Z.eqb) a b.      (* jnp.array_equal on equally shaped arrays *)
@@ -139,6 +140,8 @@ class Tr:
                 return "(rnd (%s - %s))" % (a, b), "F"        # the ONE float operation that can be inexact: an explicit rounding
             if isinstance(n.op, ast.BitAnd) and ta == tb == "VB":
                 return "(zip_with andb %s %s)" % (a, b), "VB"
+            if isinstance(n.op, ast.Div) and ta == "MZ" and tb == "Z":
+                return "(%s, %s)" % (a, b), "MQ"        # element-wise float quotient, kept as (numerators, common denominator)
             if isinstance(n.op, ast.Mod) and ta == tb == "Z":
                 return "(%s mod %s)" % (a, b), "Z"       # Python's % and Coq's mod agree for a positive modulus (floor)
             if isinstance(n.op, (ast.Add, ast.Sub, ast.Mult)) and ta == tb == "Z":
@@ -357,6 +360,10 @@ class Tr:
                 i, ti = self.expr(idx)
                 if ti == "VZ":
                     return "(scatter_const %s %s %s)" % (arr, i, val), "VB"
+            if ta == "MB" and tv == "B" and isinstance(idx, ast.Call) and u(idx.func) == "tuple" and len(idx.args) == 1:
+                pp, tp = self.expr(idx.args[0])
+                if tp == "Pos":
+                    return "(gset %s (fst %s) (snd %s) %s)" % (arr, pp, pp, val), "MB"
             if ta == "MZ" and tv == "Z" and isinstance(idx, ast.Call) and u(idx.func) == "tuple" and len(idx.args) == 1:
                 pp, tp = self.expr(idx.args[0])
                 if tp == "Pos":
@@ -407,6 +414,24 @@ class Tr:
             if tg[0] == "fn" and tg[1] == ["Pos", "Pos"] and tg[2] == "B" and tx == ty == "VPos":
                 return "(map (fun x_ : Z * Z => map (%s x_) %s) %s)" % (g, ys, xs), "MB"
             raise Unsupported("nested vmap types")
+        if f == "jnp.zeros_like" and len(n.args) == 1 and not kws:
+            v, t = self.expr(n.args[0])
+            if t == "MB":
+                return "(m_map (fun _ : bool => false) %s)" % v, "MB"
+        if f == "jnp.maximum" and len(n.args) == 2 and not kws:
+            (a, ta), (b, tb) = self.expr(n.args[0]), self.expr(n.args[1])
+            if ta == tb == "Z":
+                return "(Z.max %s %s)" % (a, b), "Z"
+        if isinstance(n.func, ast.Attribute) and n.func.attr == "max" and not n.args and not kws:
+            v, t = self.expr(n.func.value)
+            if t == "MZ":
+                return "(m_max %s)" % v, "Z"
+        if f == "jnp.concatenate" and len(n.args) == 1 and [(k, u(x)) for k, x in sorted(kws.items())] == [("axis", "-1"), ("dtype", "float")] \
+                and isinstance(n.args[0], ast.Call) and u(n.args[0].func) == "jax.tree_util.tree_map" and len(n.args[0].args) == 2 \
+                and u(n.args[0].args[0]) == "lambda x: x[..., None]" and isinstance(n.args[0].args[1], ast.List):
+            # jnp.concatenate([p[..., None] for p in planes], axis=-1, dtype=float): the planes stacked along a new last axis
+            ps = [self.expr(e) for e in n.args[0].args[1].elts]
+            return "(" + ", ".join(v for v, _ in ps) + ")", ("planes", [t for _, t in ps])
         if f == "jnp.logical_not" and len(n.args) == 1 and not kws:
             v, t = self.expr(n.args[0])
             if t == "B":
